@@ -620,6 +620,10 @@ class DbusViewMonitor(Monitor):
                                    '%s send queue %r, queued-and-not-finished %r' % (side, list(sq[1]), want_sq)))
             if bool(idle[1]):
                 busy = []
+                hdl = proc.roots.get('contact')
+                pending = hdl.recv_buffer_used() if hdl is not None and hasattr(hdl, 'recv_buffer_used') else 0
+                if pending:
+                    busy.append('%d received octets await processing' % pending)
                 if want_sq:
                     busy.append('transfers %r queued/unfinished' % (want_sq,))
                 part = [b for b in self.rx_started[side] if b not in [a for (a, _l) in self.announced[side]]]
